@@ -30,6 +30,26 @@ theorem C02_apply_err (t a : Term) (h : ∀ b, t ≠ abs b) : Term.apply t a = .
   | abs b => exact absurd rfl (h b)
   | app l r => rfl
 
+/-- C02, error path, the receiver: the Rust method works on `&mut self`; `applyMut` models the receiver after the call.
+On a non-abstraction the call returns `Err(NotAbs)` AND leaves the term untouched (nothing is written before the
+`unabs_ref()?` test).  The correspondence run checks the same on the real crate (`err NotAbs` vs `err NotAbs CHANGED …`). -/
+theorem C02_apply_err_unchanged (t a : Term) (h : ∀ b, t ≠ abs b) :
+    Term.applyMut t a = (t, .error .NotAbs) := by
+  cases t with
+  | var i => rfl
+  | abs b => exact absurd rfl (h b)
+  | app l r => rfl
+
+/-- `applyMut` and `apply` are the same function seen through `&mut self` and through its result -/
+theorem C02_applyMut_apply (t a : Term) :
+    (∀ t', Term.apply t a = .ok t' ↔ Term.applyMut t a = (t', .ok ())) ∧
+    (∀ e, Term.apply t a = .error e ↔ Term.applyMut t a = (t, .error e)) := by
+  cases t <;> simp [Term.apply, Term.applyMut]
+
+/-- C02, success path through `&mut self`: the receiver becomes exactly `b[a]` -/
+theorem C02_applyMut_abs (b a : Term) : Term.applyMut (abs b) a = (substTop b a, .ok ()) := by
+  simp only [Term.applyMut]; rw [← contract_eq_substTop]; rfl
+
 /-- C02, occurrence-wise reading.  For the variable occurrence `var i` at position `p` of the
 body `b`, sitting under `k` binders of `b`:
 * locally bound (`i ≤ k`, which includes UD `i = 0`): untouched;
